@@ -50,6 +50,11 @@ def sources(state):
            'rel/sub/impl': 'from ..helpers import hvalue as hv\nfrom ..helpers import *\n',
            'rel/__init__': 'relvalue = 0\n', 'rel/api': 'from . import helpers\n',
            'rel/helpers': 'hvalue = 1\n' + ('hextra = 2\n' if state['h_extra'] else '')}
+    # a directory that becomes a package only later: late/sub/ is a package from the start, late/__init__.py comes with an edit
+    out['late/sub/__init__'] = ''
+    out['late/sub/mod'] = 'mvalue = 1\n'
+    if state.get('late'):
+        out['late/__init__'] = 'lvalue = 1\n'
     if state['e']:
         out['e'] = 'evalue = 1\n'
     if state['f']:
@@ -119,18 +124,20 @@ REQUESTS = {
     'assist-import-line-dotted': ('assist', (1, 16), 'import pkg.beta.', 'b3.py'),
     'assist-dotted-import-buffer': ('assist', (2, 8), 'import pkg.sub\npkg.sub.', 'tools.py'),
     'assist-plain-import-buffer': ('assist', (2, 4), 'import pkg\npkg.', 'other.py'),
+    # a relative import that climbs into a directory which is a package only after create:late
+    'assist-parent-package-created-later': ('assist', (2, 8), 'from . import mod as sibling\nsibling.', 'late/sub/other.py'),
 }
-EDITS = ['w:d_extra', 'w:d_new', 'w:b_extra', 'w:c_extra', 'w:c_broken', 'w:h_extra', 'w:k_full', 'w:x_extra', 'w:y_extra', 'touch:d', 'touch:b', 'touch:c', 'create:e', 'create:f', 'create:pkg', 'delete:k', 'delete:pkg', 'create:beta-mod', 'create:beta-init']
+EDITS = ['w:d_extra', 'w:d_new', 'w:b_extra', 'w:c_extra', 'w:c_broken', 'w:h_extra', 'w:k_full', 'w:x_extra', 'w:y_extra', 'touch:d', 'touch:b', 'touch:c', 'create:e', 'create:f', 'create:pkg', 'delete:k', 'delete:pkg', 'create:beta-mod', 'create:beta-init', 'create:late']
 ALPHABET = EDITS + sorted(REQUESTS)
-QUICK_EDITS = ['w:d_extra', 'w:d_new', 'w:b_extra', 'w:y_extra', 'w:c_broken', 'w:h_extra', 'w:k_full', 'touch:d', 'touch:b', 'create:e', 'create:f', 'create:pkg', 'delete:k', 'delete:pkg']
+QUICK_EDITS = ['w:d_extra', 'w:d_new', 'w:b_extra', 'w:y_extra', 'w:c_broken', 'w:h_extra', 'w:k_full', 'touch:d', 'touch:b', 'create:e', 'create:f', 'create:pkg', 'delete:k', 'delete:pkg', 'create:late']
 QUICK_REQUESTS = ['assist-instance-attr', 'assist-star-class-attr', 'assist-names', 'assist-created-module', 'location-inherited-attr',
-                  'assist-created-package', 'assist-late-star-names', 'assist-through-cycle', 'assist-package-from-import', 'assist-relative-reexport', 'assist-deep-star-names', 'assist-deep-inherited-attr', 'assist-empty-module-star-names', 'assist-nested-level1', 'assist-nested-level2', 'assist-global-declared-import']
+                  'assist-created-package', 'assist-late-star-names', 'assist-through-cycle', 'assist-package-from-import', 'assist-relative-reexport', 'assist-deep-star-names', 'assist-deep-inherited-attr', 'assist-empty-module-star-names', 'assist-nested-level1', 'assist-nested-level2', 'assist-global-declared-import', 'assist-parent-package-created-later']
 
 
 class World(object):
     def __init__(self):
         self.root = tempfile.mkdtemp(prefix='c09_')
-        self.state = {'d_extra': False, 'd_new': False, 'b_extra': False, 'c_extra': False, 'x_extra': False, 'y_extra': False, 'c_broken': False, 'h_extra': False, 'k_full': False, 'e': False, 'f': False, 'pkg': False}
+        self.state = {'d_extra': False, 'd_new': False, 'b_extra': False, 'c_extra': False, 'x_extra': False, 'y_extra': False, 'c_broken': False, 'h_extra': False, 'k_full': False, 'e': False, 'f': False, 'pkg': False, 'late': False}
         self.clock = 1000000000
         self.written = {}
         self.loaded_once = False
@@ -229,7 +236,7 @@ def request(project, root, op):
             r = assistant.assist(project, A_SRC_, pos, fn)
             if fname != 'a.py':
                 # import-line completion also lists what is on sys.path: keep what concerns the project
-                return ('ok', (r[0], [x for x in r[1] if x in ('sub', 'beta', 'tools', 'pkgvalue', 'pvalue')]))
+                return ('ok', (r[0], [x for x in r[1] if x in ('sub', 'beta', 'tools', 'pkgvalue', 'pvalue', 'mvalue')]))
             return ('ok', (r[0], list(r[1])))
         res = assistant.location(project, A_SRC_, pos, fn)
         out = []
@@ -346,7 +353,10 @@ def run(run):
             for ops in itertools.product(alpha, repeat=L):
                 if ops[-1] in REQUESTS and any(o in EDITS for o in ops):
                     hs.append(ops)
-        for r1 in QUICK_REQUESTS:
+        # (the first request only has to load the modules: one request per path through the import graph)
+        first = ['assist-instance-attr', 'assist-names', 'assist-created-package', 'assist-through-cycle', 'assist-relative-reexport',
+                 'assist-deep-star-names', 'assist-nested-level2', 'assist-global-declared-import', 'assist-parent-package-created-later']
+        for r1 in first:
             for e1 in QUICK_EDITS:
                 for e2 in QUICK_EDITS:
                     for r2 in QUICK_REQUESTS:
